@@ -262,6 +262,37 @@ func genC16Decoy(t *rapid.T, nargs int, label string) string {
 func genC16(t *rapid.T) any {
 	mode := rapid.SampledFrom([]string{"shape", "shape", "shape", "shape", "echo", "echo", "err"}).Draw(t, "mode")
 	c := &C16Case{Mode: mode}
+	if rapid.IntRange(0, 1<<20).Draw(t, "many")%25 == 24 {
+		// many placeholders (two-digit and three-digit numbers, more than a machine word has bits): every argument
+		// is used, or one of them - anywhere in the list - is not, or the last one is missing
+		n := rapid.IntRange(9, 140).Draw(t, "many.n")
+		c.Segs = []C16Seg{{K: "t", S: "SELECT "}}
+		for i := 1; i <= n; i++ {
+			if i > 1 {
+				c.Segs = append(c.Segs, C16Seg{K: "t", S: ", "})
+			}
+			c.Segs = append(c.Segs, C16Seg{K: "p", N: i}, C16Seg{K: "t", S: fmt.Sprintf(" AS c%d", i)})
+			c.Args = append(c.Args, C16Arg{K: "i", S: strconv.Itoa(1000 + i)})
+		}
+		c.Segs = append(c.Segs, C16Seg{K: "t", S: " FROM dual"})
+		switch rapid.SampledFrom([]string{"shape", "unused", "unused", "missing"}).Draw(t, "many.kind") {
+		case "shape":
+			c.Mode = "shape"
+		case "missing":
+			c.Mode, c.Err = "err", "missing"
+			c.Args = c.Args[:n-1]
+		default:
+			c.Mode, c.Err = "err", "unused"
+			g := rapid.IntRange(1, n+1).Draw(t, "many.unusedpos")
+			c.Args = append(c.Args[:g-1:g-1], append([]C16Arg{{K: "i", S: "7"}}, c.Args[g-1:]...)...)
+			for i := range c.Segs {
+				if c.Segs[i].K == "p" && c.Segs[i].N >= g {
+					c.Segs[i].N++
+				}
+			}
+		}
+		return c
+	}
 	if mode == "echo" {
 		c.Args = []C16Arg{genC16Arg(t, "arg")}
 		c.Segs = []C16Seg{{K: "t", S: "SELECT "}, {K: "p", N: 1}, {K: "t", S: " AS v FROM dual"}}
